@@ -65,7 +65,7 @@ def run_replay(chk, tier):
     beh = vlib.replay_lines(r)
     nex = len(beh)
     depth = 9
-    w = vlib.tlc(SPECD, "ServiceReplay", "MC_svc_replay_walk.cfg", workers=1, simulate=(150 if q else 4000), depth=depth * 8 + 10,
+    w = vlib.tlc(SPECD, "ServiceReplay", "MC_svc_replay_walk.cfg", workers=1, simulate=(300 if q else 4000), depth=depth * 8 + 10,
                  seed=chk.seed, timeout=1800)
     if w.errors or w.invariant_violated:
         raise vlib.ToolError(f"ServiceReplay (walks) does not satisfy its own invariants: {w.errors[:2]}")
@@ -139,7 +139,14 @@ def run_replay(chk, tier):
                        "trace": [json.loads(l) for l in lines]},
                       key=f"X01:seqtrace:{(v.event or {}).get('ev') if isinstance(v.event, dict) else v.invariant}")
 
-    acc = vlib.validate_scenarios(SPECD, "ServiceTrace", "ServiceTrace.cfg", tall, mall, on_reject, stats=chk.extra, chunk=60)
+    if q:
+        # quick tier: the traces of a seeded sample of the exhaustive sequences and of all walks
+        keep = set(chk.rng.sample(range(1, nex + 1), min(nex, 700))) | {b["id"] for b in beh[nex:]}
+        sel = [m for m in metas if m["id"] in keep]
+        msel = os.path.join(chk.dir, "seq-meta-sel.ndjson")
+        vlib.write_ndjson(msel, sel)
+        mall = msel
+    acc = vlib.validate_scenarios(SPECD, "ServiceTrace", "ServiceTrace.cfg", tall, mall, on_reject, stats=chk.extra, chunk=100)
     chk.extra["sequential_traces_validated"] = acc
     chk.traces += acc
     chk.sample({"sequential_behaviour": [[s["op"], s["e"], s["mode"], s["ok"]] for s in beh[len(beh) // 2]["steps"]]})
@@ -284,7 +291,7 @@ def run(prop, tier):
     run_replay(chk, tier)
     t2 = time.time()
     rng = random.Random(chk.seed * 7919 + 101)
-    scen = gen_scenarios(rng, 70 if tier == "quick" else 1500)
+    scen = gen_scenarios(rng, 100 if tier == "quick" else 1500)
     for i, s in enumerate(scen):
         s["id"] = i + 1
         s["seed"] = chk.seed * 100000 + i
@@ -293,11 +300,13 @@ def run(prop, tier):
     chk.extra["wall_sequential_replay_s"] = round(t2 - t1, 1)
     chk.extra["wall_recorded_s"] = round(time.time() - t2, 1)
     log(f"[X01] model checking {t1 - t0:.0f}s, sequential replay {t2 - t1:.0f}s, recorded scenarios {time.time() - t2:.0f}s")
+    rc = chk.finish()
     # vacuity of the recorded part: the races must actually have happened
-    for k in ("try_err", "no_sink", "never_written", "lines"):
-        if tot[k] == 0:
-            raise vlib.ToolError(f"vacuity: no recorded scenario had {k} > 0")
-    return chk.finish()
+    if rc == 0:
+        for k in ("try_err", "no_sink", "never_written", "lines"):
+            if tot[k] == 0:
+                raise vlib.ToolError(f"vacuity: no recorded scenario had {k} > 0")
+    return rc
 
 
 def replay(prop, path):
